@@ -279,6 +279,14 @@ func runStress(rep *Report, replay string) {
 			})
 			c.QueryAt(450, func(row column.Row) error { row.MergeInt64("b", 1); return nil })
 			atomic.AddInt64(&merged, 1)
+			// a string written through MergeString (default merge: the delta replaces the value) together with the
+			// number it is derived from: a reader must never see a tag that does not spell its number
+			tagv := int64(r.Intn(1000000))
+			c.QueryAt(470+uint32(w), func(row column.Row) error {
+				row.SetInt64("a", tagv)
+				row.MergeString("s", fmt.Sprintf("v%06d", tagv))
+				return nil
+			})
 			// record merge on the counter row of "this" writer's chunk: writers 0,1 → chunk 0; 2,3 → chunk 1
 			k := w / 2
 			c.QueryAt(recRows[k], func(row column.Row) error { return row.MergeRecord("rc", &ctr{n: 1, pad: int64(w)}) })
@@ -297,8 +305,20 @@ func runStress(rep *Report, replay string) {
 			atomic.AddInt64(&torn, 1)
 		}
 	}
+	var badTag int64
 	for w := 4; w < 8; w++ {
 		worker(w, func(r *rand.Rand) {
+			if r.Intn(4) == 0 {
+				c.QueryAt(470+uint32(r.Intn(4)), func(row column.Row) error {
+					a, ok1 := row.Int64("a")
+					tag, ok2 := row.String("s")
+					if ok1 && ok2 && len(tag) == 7 && tag[0] == 'v' && tag != fmt.Sprintf("v%06d", a) {
+						atomic.AddInt64(&badTag, 1)
+					}
+					return nil
+				})
+				return
+			}
 			switch r.Intn(3) {
 			case 0:
 				idx := uint32(r.Intn(400))
@@ -452,6 +472,9 @@ func runStress(rep *Report, replay string) {
 	case <-doneCh:
 	case <-time.After(30 * time.Second):
 		addV("deadlock", "workers did not terminate within 30 s after the stop signal (deadlock)")
+	}
+	if badTag > 0 {
+		addV("torn", fmt.Sprintf("%d reads inside a callback saw a string tag that does not spell the number committed with it (a value no transaction committed)", badTag))
 	}
 	if keyBad > 0 {
 		addV("keys", fmt.Sprintf("%d lookups of a key right after its owner upserted it did not return the row just written", keyBad))
